@@ -786,7 +786,24 @@ def chk_c_used_twins(c: Case):
         c.ctx.cov.hit("c-used:earlier-history-raised")
         return
     rep = {"spec_constructed": spec2, "spec_before_set_params": spec1, "set_params": kw, "earlier_ops": ops_replay(pre)}
-    o = outcome(lambda: B.set_params(**kw))
+    by_attr = r.random() < 0.4
+    if by_attr:
+        # the same values written by plain attribute assignment on the estimator that owns them (`est.rho = v`,
+        # `est.module_a.rho = v`): attribute access mirrors the parameters, so this is the same re-configuration
+        def assign():
+            with quiet():
+                gp = B.get_params(deep=True)
+            for k_, v_ in kw.items():
+                owner, attr = (gp[k_.rsplit("__", 1)[0]], k_.rsplit("__", 1)[1]) if "__" in k_ else (B, k_)
+                setattr(owner, attr, v_)
+        o = outcome(assign)
+        rep["by_attribute_assignment"] = True
+        if o[0] == "exc":
+            c.ctx.cov.hit("c-used:attribute-assignment-raised")
+            return
+        c.ctx.cov.hit("c-used:by-attribute-assignment")
+    else:
+        o = outcome(lambda: B.set_params(**kw))
     if o[0] == "exc":
         c.violation(f"{S.cls}.set_params:valid-values-raise", f"set_params with values accepted by the constructor raised {o[1]}", rep)
         return
@@ -796,8 +813,8 @@ def chk_c_used_twins(c: Case):
     outsA, outsB = run_ops(S, A, ops), run_ops(S, B, ops)
     d = first_diff(behav(outsA), behav(outsB))
     if d is not None:
-        c.violation(f"{S.cls}.set_params:used-estimator-differs-from-constructed",
-                    f"a trained estimator after set_params({_brief(kw)}) and a new fit behaves differently from one constructed "
+        c.violation(f"{S.cls}.{'attribute-assignment' if by_attr else 'set_params'}:used-estimator-differs-from-constructed",
+                    f"a trained estimator after {'attribute assignment of' if by_attr else 'set_params'}({_brief(kw)}) and a new fit behaves differently from one constructed "
                     f"with these values (first difference at call {d}: {ops[d][0]}; categories {_nc(outsA, d)} vs {_nc(outsB, d)})", rep)
     c.ctx.cov.hit("c-used:differs" if d is not None else "c-used:equal")
     c.ctx.cov.case(("c-used", S.name, spec1, spec2, ops_brief(pre), ops_brief(ops)), nontrivial(outsA) and strip(spec1) != strip(spec2))
